@@ -362,7 +362,8 @@ def make_on_log():
 # ------------------------------------------------------------------------------------------------ level 1 world
 class PoolWorld:
     def __init__(self, nb: int, rounds: int, max_idle: int, reaper: bool = True, closer: bool = True, rng=None,
-                 nkeys: int = 1) -> None:
+                 nkeys: int = 1, shm_size: int | None = None) -> None:
+        self.shm_size = shm_size
         self.nb, self.rounds, self.max_idle, self.nkeys = nb, rounds, max_idle, nkeys
         self.with_reaper, self.with_closer = reaper, closer
         self.rng = rng
@@ -512,7 +513,7 @@ class PoolWorld:
     def __enter__(self) -> "PoolWorld":
         P.threading, P.time, P.SubprocessTransport = self.ns, self.tns, self.FakeTransport
         P.atexit = types.SimpleNamespace(register=lambda *a, **k: None, unregister=lambda *a, **k: None)
-        self.pool = P.WorkerPool(max_idle=self.max_idle, idle_timeout=1.0)
+        self.pool = P.WorkerPool(max_idle=self.max_idle, idle_timeout=1.0, shm_size=self.shm_size)
         if self.with_reaper:
             self.sched.step("reaper")          # from thread start to its first Event.wait (setup, not recorded)
         for b in range(1, self.nb + 1):
@@ -809,7 +810,7 @@ def _table_case(c: dict, inproc: bool) -> dict:
     from vgi_rpc.pool import WorkerPool
 
     if inproc:
-        wd = PoolWorld(0, 1, c["mi"], reaper=False, closer=False)
+        wd = PoolWorld(0, 1, c["mi"], reaper=False, closer=False, shm_size=(1 << 20) if c.get("shm") else None)
         wd.__enter__()
         pool, cmd = wd.pool, CMD
     else:
